@@ -233,6 +233,25 @@ def chk_refuse(case, acc, seed):
             if tuple(p.pixelscale) != ps:
                 acc.violation('rescale:non-uniform:original-modified', dict(case, scale=s_, pixelscale=ps), f'{p.pixelscale}')
     acc.cls('non-uniform-sampling')
+    # resample between independently given decimal pixel scales whose float quotient lies one ulp beside an integer (0.3 / 0.1):
+    # the result has the requested pixel scale and ceil(n * old/new) samples (either reading of the quotient) (w9-C17-2)
+    from fractions import Fraction as _Fr
+    for old_ps, new_ps in (('0.3', '0.1'), ('0.6', '0.2'), ('0.7', '0.1'), ('1.2e-3', '0.4e-3'), ('0.3', '0.15'), ('0.9', '0.3'), ('0.1', '0.3')):
+        o_, n_ = float(old_ps), float(new_ps)
+        p = plane((24, 30), 'mono', seed, pixelscale=o_)
+        sub = dict(case, old=o_, new=n_)
+        try:
+            q = p.resample(n_)
+        except Exception as e:
+            acc.violation(f'resample:decimal:raises:{type(e).__name__}', sub, repr(e))
+            continue
+        if q.pixelscale is None or not np.allclose(q.pixelscale, (n_, n_), rtol=1e-12, atol=0):
+            acc.violation('resample:decimal:pixelscale', sub, f'resample({n_}) of a plane sampled at {o_} has pixel scale {q.pixelscale}')
+        exact = _Fr(old_ps) / _Fr(new_ps)
+        ok_shapes = {(math.ceil(24 * k), math.ceil(30 * k)) for k in (o_ / n_, exact)}
+        if tuple(q.shape) not in ok_shapes:
+            acc.violation('resample:decimal:shape', sub, f'resample({n_}) of a (24, 30) plane sampled at {o_} has shape {tuple(q.shape)}, expected one of {sorted(ok_shapes)}')
+    acc.cls('decimal-pixelscales')
     # a plane without pixel scale can still be rescaled; the pixel scale stays undefined
     p = plane((24, 24), 'mono', seed, pixelscale=None)
     q = p.rescale(2)
